@@ -747,3 +747,13 @@ func (sp *Specs) resolveConforms() error {
 	}
 	return nil
 }
+
+// propListed: a clause tag @C01,C14 lists the properties it belongs to.
+func propListed(tag, prop string) bool {
+	for _, p := range strings.Split(tag, ",") {
+		if strings.TrimSpace(p) == prop {
+			return true
+		}
+	}
+	return false
+}
